@@ -65,6 +65,8 @@ pub enum Fault {
     EofAt(usize),
     /// flush fails (writer only)
     FlushError,
+    /// writer only: a bounded sink that is full at offset k and then reports Ok(0), like `&mut [u8]`
+    FullAt(usize),
 }
 
 pub struct Endpoint {
@@ -139,6 +141,12 @@ impl Endpoint {
         if let Fault::ErrorAt(k) = self.fault {
             if at >= k {
                 return Err(IoFault::Hard);
+            }
+            room = k - at;
+        }
+        if let Fault::FullAt(k) = self.fault {
+            if at >= k {
+                return Ok(0);
             }
             room = k - at;
         }
@@ -277,7 +285,7 @@ fn writer_case(t: &mut Tctx, shape: &Shape, val: &Val, plain: &[u8], eio: bool, 
     };
     let rp = || rpw(shape, plain, adapter, &sched, fault, 0, "writer");
     let will_fail = match fault {
-        Fault::ErrorAt(k) => k < l,
+        Fault::ErrorAt(k) | Fault::FullAt(k) => k < l,
         Fault::FlushError => true,
         _ => false,
     };
@@ -573,14 +581,19 @@ pub fn one_value(t: &mut Tctx, gb: &mut GuardBuf, shape: &Shape, val: &Val, thin
             writer_case(t, shape, val, &plain, eio, sched, Fault::None, &[]);
             writer_case(t, shape, val, &plain, eio, sched, Fault::FlushError, &[]);
             if !eio && l > 0 {
-                let at = t.rng.below(l as u64) as usize;
-                writer_case(t, shape, val, &plain, false, sched, Fault::None, &[at, 0]);
+                // Interrupted is transparent wherever it strikes: every offset for short messages
+                let ats: Vec<usize> = if l <= 32 { (0..l).collect() } else { (0..8).map(|_| t.rng.below(l as u64) as usize).collect() };
+                for at in ats {
+                    writer_case(t, shape, val, &plain, false, sched, Fault::None, &[at]);
+                }
             }
             let offs: Vec<usize> = if thin && l > 24 { (0..12).map(|_| t.rng.below(l as u64 + 2) as usize).collect() } else { (0..=l + 1).collect() };
             for &k in &offs {
                 t.st.count("writer_fault_offsets");
                 writer_case(t, shape, val, &plain, eio, sched, Fault::ErrorAt(k), &[]);
                 if !eio {
+                    // std::io only: a full bounded sink answers Ok(0) (embedded-io's write_all treats that as a contract violation)
+                    writer_case(t, shape, val, &plain, false, sched, Fault::FullAt(k), &[]);
                     writer_prefix_case(t, shape, val, &plain, sched, k);
                 }
             }
